@@ -1,5 +1,5 @@
 (* Correspondence driver for C07: a history on an IndexedAdvancedHTMLParser; answers are shown as document-order ranks. *)
-From AHP Require Export Model.Base Model.Str Model.Attr Model.Dom Model.Serial Model.Parser Model.Search Model.Index Corr.Run_Parse.
+From AHP Require Export Model.Base Model.Str Model.Attr Model.Dom Model.Serial Model.Parser Model.Search Model.Index Model.IndexedParser Corr.Run_Parse.
 
 Definition icase := ((bool * bool * bool * bool) * list string * (list token * option (list token)) * list edit * list reconf
                      * bool * list (option nat * query))%type.
@@ -28,11 +28,11 @@ Definition run_index (c : icase) : string :=
   let '(fl, attrs, d, edits, reconfs, final, qs) := c in
   let '(f1, f2, f3, f4) := fl in
   let cfg := {| ix_id := f1; ix_name := f2; ix_class := f3; ix_tag := f4 |} in
-  match feed PIndexed (fst d) (match snd d with Some x => x | None => [] end) with
-  | POk s => match tree_of s with
+  let i0 := with_others (map (fun a => (lower a, @nil (string * list nat))) attrs) idx0 in
+  match ifeed cfg PIndexed i0 (fst d) (match snd d with Some x => x | None => [] end) with
+  | POk (s, ix0) => match tree_of s with
              | Some root =>
-                 let i0 := with_others (map (fun a => (lower a, @nil (string * list nat))) attrs) idx0 in
-                 let st0 := {| icf := cfg; iix := reindex cfg root i0 |} in          (* the index as parsing leaves it *)
+                 let st0 := {| icf := cfg; iix := ix0 |} in                          (* the index as parsing leaves it *)
                  let doc := fold_left apply_edit edits root in
                  let st1 := fold_left (apply_reconf doc) reconfs st0 in
                  let st2 := if final then {| icf := icf st1; iix := reindex (icf st1) doc (iix st1) |} else st1 in
